@@ -1,0 +1,89 @@
+//! Verification hooks. Compiled only with the cargo feature `verif-hooks`.
+//!
+//! With the feature enabled and no table installed, every function falls through to
+//! `alloc::alloc::*`, so the crate behaves exactly as it does without the feature.
+use core::alloc::Layout;
+use core::ptr;
+use core::sync::atomic::{AtomicPtr, Ordering};
+
+/// Kind of access the crate is about to make to a heap buffer.
+#[derive(Clone, Copy, Debug, PartialEq, Eq)]
+pub enum Access {
+    /// The bytes are only read.
+    Read,
+    /// The bytes may be written, moved or released.
+    Write,
+}
+
+/// Replacement allocator entry points and an access observer.
+pub struct HookTable {
+    /// Replacement for `alloc::alloc::alloc`; may return null.
+    pub alloc: unsafe fn(Layout) -> *mut u8,
+    /// Replacement for `alloc::alloc::realloc`; may return null, leaving the old block intact.
+    pub realloc: unsafe fn(*mut u8, Layout, usize) -> *mut u8,
+    /// Replacement for `alloc::alloc::dealloc`.
+    pub dealloc: unsafe fn(*mut u8, Layout),
+    /// An access the crate is about to make: kind, address of the first text byte of the heap
+    /// buffer, start of the accessed range relative to that address (negative for the header),
+    /// length of the range in bytes, and the name of the call site.
+    pub note: fn(Access, *const u8, isize, usize, &'static str),
+}
+
+static TABLE: AtomicPtr<HookTable> = AtomicPtr::new(ptr::null_mut());
+
+/// Installs (or with `None` removes) the hook table for the whole process.
+pub fn install(table: Option<&'static HookTable>) {
+    let p = match table {
+        Some(t) => t as *const HookTable as *mut HookTable,
+        None => ptr::null_mut(),
+    };
+    TABLE.store(p, Ordering::SeqCst);
+}
+
+#[inline]
+fn table() -> Option<&'static HookTable> {
+    let p = TABLE.load(Ordering::Relaxed);
+    // SAFETY: only `&'static HookTable` is ever stored.
+    if p.is_null() { None } else { Some(unsafe { &*p }) }
+}
+
+pub(crate) unsafe fn alloc(layout: Layout) -> *mut u8 {
+    match table() {
+        Some(t) => unsafe { (t.alloc)(layout) },
+        None => unsafe { alloc::alloc::alloc(layout) },
+    }
+}
+
+pub(crate) unsafe fn realloc(p: *mut u8, layout: Layout, new_size: usize) -> *mut u8 {
+    match table() {
+        Some(t) => unsafe { (t.realloc)(p, layout, new_size) },
+        None => unsafe { alloc::alloc::realloc(p, layout, new_size) },
+    }
+}
+
+pub(crate) unsafe fn dealloc(p: *mut u8, layout: Layout) {
+    match table() {
+        Some(t) => unsafe { (t.dealloc)(p, layout) },
+        None => unsafe { alloc::alloc::dealloc(p, layout) },
+    }
+}
+
+#[inline]
+pub(crate) fn note(
+    access: Access,
+    text_ptr: *const u8,
+    start: isize,
+    len: usize,
+    site: &'static str,
+) {
+    if let Some(t) = table() {
+        (t.note)(access, text_ptr, start, len, site)
+    }
+}
+
+/// Reference count of the heap buffer behind `s`, `None` if `s` is not heap allocated.
+///
+/// Under `cfg(loom)` this is an unsynchronized load: only call it while no other thread runs.
+pub fn refcount(s: &crate::LeanString) -> Option<usize> {
+    s.0.verif_refcount()
+}
